@@ -208,13 +208,15 @@ def body(ctx, H, prim):
     if prim == "weighted_sweep":
         n = 2 + H.draw(4)
         ws = [H.pick([0, 1, 1, 2, 3, 0.5, 0.25, 0.1, 7]) for _ in range(n)]
+        if H.draw(3) == 0:
+            ws = [H.pick([0, 1, 1, 2, 3, 5]) for _ in range(n)]  # all-integer weights
         if not any(ws):
             ws[H.draw(n)] = 1
         probe = Scripted([0])
         probe.choice_weighted(list(range(n)), ws)
         lo, hi = probe.requests[0]
         width = hi - lo + 1
-        points = min(width, 4000)
+        points = min(width, 20000)
         grid = [lo + (i * width) // points for i in range(points)] + [hi]
         counts = [0] * n
         for v in grid:
@@ -229,7 +231,10 @@ def body(ctx, H, prim):
         for i in range(n):
             got = counts[i] / len(grid)
             want = ws[i] / tot
-            if abs(got - want) > 3 / len(grid) + 2e-5 * n:
+            # exhaustive sweep of the base draw: only the closed-range surplus and integer truncation may show (< 1e-3 for
+            # weights summing to >= 0.1); sampled grid: plus the grid resolution
+            tol = 1e-3 if points == width else 2 * n / len(grid) + 1e-3
+            if tot >= 0.1 and abs(got - want) > tol:
                 ctx.violate("C18/choice_weighted-not-proportional", f"weights {ws}: option {i} selected by {got:.5f} of the base-draw range, expected {want:.5f}")
                 return
         return
